@@ -7,7 +7,7 @@ kinds = {"1": "mixed refactoring PR", "2": "signature reshaping", "3": "method o
 if rnd == "6":
     kinds = {"1": "optional diagnostics hook, off by default", "2": "read/write lock or atomic API refinement", "3": "lookup tables, switches and named predicates",
              "4": "provably equivalent fast paths", "5": "additive API ergonomics", "6": "test-support seams"}
-if rnd in ("8", "9", "10"):
+if rnd in ("8", "9", "10", "11", "12"):
     kinds = {}
 if rnd == "7":
     kinds = {"1": "extract-method / inline-method code motion", "2": "control-flow restyling", "3": "data layout clean-up (by-value field groups)",
@@ -27,6 +27,6 @@ for d in sorted(glob.glob(src + "/[0-9]*")):
     if os.path.exists(d + "/notes.md"):
         shutil.copy(d + "/notes.md", t + "/notes.md")
     json.dump({"kind": "must-stay-silent", "properties": props,
-               "what": "round-%s behaviour-preserving refactoring by an independent sub-agent (%s, patch %s: %s)" % (rnd, rk, n, kinds.get(n, "refactoring of the maintainer's own choice" if rnd in ("8", "9", "10") else "further refactoring")),
+               "what": "round-%s behaviour-preserving refactoring by an independent sub-agent (%s, patch %s: %s)" % (rnd, rk, n, kinds.get(n, "refactoring of the maintainer's own choice" if rnd in ("8", "9", "10", "11", "12") else "further refactoring")),
                "renames_unexported_identifier": True}, open(t + "/expect.json", "w"), indent=1)
     print(t)
